@@ -116,6 +116,8 @@ pub struct ElementDefinition { pub name: ElementName, pub elemtype: u16, pub mul
 #[derive(Clone, Copy)]
 pub struct ElementSpec { pub sub_elements: (u16, u16), pub sub_element_ver: u16, pub attributes: (u16, u16), pub attributes_ver: u16, pub character_data: Option<u16>, pub mode: ContentMode, pub ref_info: (u16, u16) }
 
+#[derive(Clone, Copy)]
+pub struct GroupType(pub u16);
 pub struct AttrDefinitionsIter { pub type_id: u16, pub pos: usize }
 pub struct SubelemDefinitionsIter { pub type_id_stack: Vec<u16>, pub indices: Vec<usize> }
 
@@ -218,6 +220,52 @@ pub proof fn lemma_resolve_any(etype: int, p: Seq<usize>)
 {
     if p.len() > 1 && 0 <= etype < n_dt() && p[0] < sub_of(etype).len() {
         match sub_of(etype)[p[0] as int] { SubElement::Group(g) => lemma_resolve_any(g as int, p.subrange(1, p.len() as int)), _ => {} }
+    }
+}
+
+// the innermost group (or the type itself) that contains both index lists: walk down while the lists agree and name a group
+pub open spec fn common_group(t: int, a: Seq<usize>, b: Seq<usize>) -> int
+    decreases a.len()
+{
+    if a.len() > 0 && b.len() > 0 && a[0] == b[0] && 0 <= t < n_dt() && a[0] < sub_of(t).len() {
+        match sub_of(t)[a[0] as int] {
+            SubElement::Element(_) => t,
+            SubElement::Group(g) => common_group(g as int, a.subrange(1, a.len() as int), b.subrange(1, b.len() as int)),
+        }
+    } else { t }
+}
+// the group (or the type itself) that directly contains the sub-element at index list p
+pub open spec fn container_of(t: int, p: Seq<usize>) -> int
+    decreases p.len()
+{
+    if p.len() < 2 || !(0 <= t < n_dt()) || p[0] >= sub_of(t).len() { t }
+    else { match sub_of(t)[p[0] as int] { SubElement::Group(g) => container_of(g as int, p.subrange(1, p.len() as int)), SubElement::Element(_) => t } }
+}
+pub proof fn lemma_container_prefix(t: int, p: Seq<usize>)
+    requires p.len() >= 2, resolve_any(t, p) is Some, wf_tables()
+    ensures resolve_any(t, p.subrange(0, p.len() - 1)) matches Some((SubElement::Group(g), _)) && g as int == container_of(t, p) && g < n_dt(),
+            idx_ok(t, p.subrange(0, p.len() - 1))
+    decreases p.len()
+{
+    let q = p.subrange(0, p.len() - 1);
+    let tl = p.subrange(1, p.len() as int);
+    assert(q[0] == p[0]);
+    assert(sub_of(t)[p[0] as int] == t_sub(t_dt(t).sub_elements.0 + p[0]));
+    match sub_of(t)[p[0] as int] {
+        SubElement::Group(g) => {
+            assert(resolve_any(g as int, tl) is Some);
+            if p.len() == 2 {
+                assert(q.len() == 1);
+                assert(tl.len() == 1);
+                assert(container_of(g as int, tl) == g as int);
+                assert(container_of(t, p) == g as int);
+            } else {
+                lemma_container_prefix(g as int, tl);
+                assert(tl.subrange(0, tl.len() - 1) =~= q.subrange(1, q.len() as int));
+                assert(container_of(t, p) == container_of(g as int, tl));
+            }
+        }
+        SubElement::Element(_) => {}
     }
 }
 
@@ -394,6 +442,10 @@ pub proof fn lemma_measure_pop(stack: Seq<u16>, indices: Seq<usize>)
     }
 }
 
+pub fn vx_prefix(x: &[usize], n: usize) -> (r: &[usize])
+    requires n <= x.len()
+    ensures r@ == x@.subrange(0, n as int)
+{ vstd::slice::slice_subrange(x, 0, n) }
 // first listed attribute with the given name
 pub fn vx_find_attr(x: &[(AttributeName, u16, bool)], n: AttributeName) -> (r: Option<(usize, &(AttributeName, u16, bool))>)
     ensures match r {
@@ -455,6 +507,7 @@ def r_forslice():
     return [(r'(?m)^( *)for (\w+|\(\w+, _\)) in (\*?\w+) \{', _forslice, 'R23')]
 
 
+IMPL_GT = r'impl GroupType'
 IMPL_AI = r'impl Iterator for AttrDefinitionsIter'
 IMPL_SI = r'impl Iterator for SubelemDefinitionsIter'
 
@@ -529,6 +582,31 @@ def fns(sz):
         FnSpec('get_sub_element_multiplicity', F, impl=IMPL_ET, ret='r', requires=[T, 'idx_ok(self.typ as int, element_indices@)'],
                ensures=['r == (match resolve_any(self.typ as int, element_indices@) { Some((SubElement::Element(d), _)) => Some(t_el(d as int).multiplicity), _ => None })'],
                proofs=[dict(at='body_start', text='proof { axiom_tables(); lemma_resolve_any_in_range(self.typ as int, element_indices@); }')]),
+        FnSpec('get_sub_element_container_mode', F, impl=IMPL_ET, ret='r',
+               requires=[T, 'element_indices@.len() >= 2 ==> resolve_any(self.typ as int, element_indices@) is Some'],
+               ensures=['r == t_dt(container_of(self.typ as int, element_indices@)).mode'],
+               body_sub=[(r'&element_indices\[\.\.len\]', lambda m: 'vx_prefix(element_indices, len)', 'R37')],
+               proofs=[dict(at='body_start', text='proof { axiom_tables(); if element_indices@.len() >= 2 { lemma_container_prefix(self.typ as int, element_indices@); } }')]),
+        FnSpec('find_common_group', F, impl=IMPL_ET, ret='r', requires=[T, 'idx_ok(self.typ as int, element_indices@)'],
+               ensures=['r.0 as int == common_group(self.typ as int, element_indices@, element_indices2@)', 'r.0 < n_dt()'],
+               loops={0: dict(invariant=['wf_tables()', 'result < n_dt()', 'prefix_len <= element_indices.len()', 'prefix_len <= element_indices2.len()',
+                                         'idx_ok(result as int, element_indices@.subrange(prefix_len as int, element_indices.len() as int))',
+                                         'common_group(self.typ as int, element_indices@, element_indices2@) == common_group(result as int, element_indices@.subrange(prefix_len as int, element_indices.len() as int), element_indices2@.subrange(prefix_len as int, element_indices2.len() as int))'],
+                              decreases='element_indices.len() - prefix_len')},
+               proofs=[dict(at='body_start', text='proof { axiom_tables(); assert(element_indices@.subrange(0, element_indices.len() as int) =~= element_indices@); assert(element_indices2@.subrange(0, element_indices2.len() as int) =~= element_indices2@); }'),
+                       dict(after=r'&& element_indices\[prefix_len\] == element_indices2\[prefix_len\]\s*\{', indent=True, text=r"""proof {
+    let qa = element_indices@.subrange(prefix_len as int, element_indices.len() as int);
+    let qb = element_indices2@.subrange(prefix_len as int, element_indices2.len() as int);
+    assert(qa[0] == element_indices@[prefix_len as int] && qb[0] == element_indices2@[prefix_len as int]);
+    assert(qa.subrange(1, qa.len() as int) =~= element_indices@.subrange(prefix_len + 1, element_indices.len() as int));
+    assert(qb.subrange(1, qb.len() as int) =~= element_indices2@.subrange(prefix_len + 1, element_indices2.len() as int));
+    assert(sub_of(result as int)[qa[0] as int] == t_sub(t_dt(result as int).sub_elements.0 + qa[0]));
+}""")]),
+        FnSpec('content_mode', F, impl=IMPL_ET, ret='r', label='ElementType.content_mode', sig_sub=[(r'pub const fn', 'pub fn')], requires=[T], ensures=['r == t_dt(self.typ as int).mode']),
+        FnSpec('content_mode', F, impl=IMPL_GT, ret='r', label='GroupType.content_mode', sig_sub=[(r'pub const fn', 'pub fn')], requires=['self.0 < n_dt()'], ensures=['r == t_dt(self.0 as int).mode']),
+        FnSpec('chardata_spec', F, impl=IMPL_ET, ret='r', sig_sub=[(r'pub const fn', 'pub fn')], requires=[T],
+               ensures=['match r { Some(s) => t_dt(self.typ as int).character_data matches Some(c) && *s == t_cd(c as int), None => t_dt(self.typ as int).character_data is None }'],
+               proofs=[dict(at='body_start', text='proof { axiom_tables(); }')]),
         FnSpec('is_named', F, impl=IMPL_ET, ret='r', requires=[T], ensures=['r == sn_mask(self.typ as int).is_some()']),
         FnSpec('short_name_version_mask', F, impl=IMPL_ET, ret='r', sig_sub=[(r'pub\(crate\) fn', 'pub fn')], requires=[T], ensures=['r == sn_mask(self.typ as int)'],
                proofs=[dict(at='body_start', text='proof { axiom_tables(); }')]),
@@ -597,7 +675,7 @@ def make_unit(repo_dir):
     check_decls(repo_dir)
     sz = table_sizes(repo_dir)
     spec = TYPES % dict(STATICS=statics(sz), REFERENCE_TYPE_IDX=sz['REFERENCE_TYPE_IDX'], **{k: v[1] for k, v in sz.items() if isinstance(v, tuple)})
-    u = Unit(name='lookups', prop='C18', spec=spec, fns=fns(sz), wrap={IMPL_ET: 'impl ElementType', IMPL_AI: 'impl AttrDefinitionsIter', IMPL_SI: 'impl SubelemDefinitionsIter'},
+    u = Unit(name='lookups', prop='C18', spec=spec, fns=fns(sz), wrap={IMPL_ET: 'impl ElementType', IMPL_GT: 'impl GroupType', IMPL_AI: 'impl AttrDefinitionsIter', IMPL_SI: 'impl SubelemDefinitionsIter'},
              dropped=['contents of the seven static tables (rule R8): they enter only through wf_tables(), discharged by the native evaluation `ground speclib tables_wf` on the real statics',
                       'ElementName / AttributeName / EnumItem are opaque stand-ins (only compared); CharacterDataSpec keeps the Enum variant only; doc comments, #[must_use], derives, the docstrings feature field'])
     u.sizes = sz
